@@ -80,6 +80,9 @@ type rtEngine struct {
 	keys   []string
 	opn    int
 	scale  *big.Int // per-history magnitude class: every pool reserve / funding is multiplied by it
+	// independent reference of the taker-fee configuration: custom fee per directed pair (absent = follows the default)
+	feeRef map[string]*big.Int
+	defFee *big.Int
 }
 
 func (e *rtEngine) sc(x *big.Int) *big.Int { return new(big.Int).Mul(x, e.scale) }
@@ -873,6 +876,16 @@ func (e *rtEngine) setPairFee(din, dout string, fee *big.Int) {
 	}
 	e.o.Emit(fmt.Sprintf("router setfee %s %s %s", din, dout, fee), "ok", true)
 	e.o.Count("cfg.setfee")
+	if e.feeRef == nil {
+		e.feeRef = map[string]*big.Int{}
+	}
+	if e.defFee != nil && fee.Cmp(e.defFee) == 0 {
+		delete(e.feeRef, din+">"+dout) // setting the default value un-customises the pair
+		e.o.Count("cfg.setfee.reset-to-default")
+	} else {
+		e.feeRef[din+">"+dout] = new(big.Int).Set(fee)
+	}
+	e.checkFee(din, dout)
 }
 
 func (e *rtEngine) checkFee(din, dout string) {
@@ -882,6 +895,16 @@ func (e *rtEngine) checkFee(din, dout string) {
 		return
 	}
 	e.o.Emit(fmt.Sprintf("router fee %s %s", din, dout), "ok "+resp.TakerFee.BigInt().String(), true)
+	// oracle: the fee in force for a directed pair is the last custom value set for exactly that direction, else the default
+	if e.defFee != nil {
+		want, cls := e.defFee, "follows-default"
+		if v, ok := e.feeRef[din+">"+dout]; ok {
+			want, cls = v, "custom"
+		}
+		if resp.TakerFee.BigInt().Cmp(want) != 0 {
+			e.o.Fail("takerfee:in-force!=configured:"+cls, fmt.Sprintf("router fee %s %s => %s, configured %s (default %s)", din, dout, resp.TakerFee.BigInt(), want, e.defFee))
+		}
+	}
 }
 
 func (e *rtEngine) setWhitelist() {
@@ -912,6 +935,7 @@ func (e *rtEngine) configureFees() {
 	e.h.App.PoolManagerKeeper.SetParam(e.h.Ctx, pmtypes.KeyDefaultTakerFee, sd(def))
 	e.h.App.PoolManagerKeeper.SetParam(e.h.Ctx, pmtypes.KeyAdminAddresses, []string{e.accs[0].String()})
 	e.o.Emit(fmt.Sprintf("router reset %s", def), "ok", true)
+	e.defFee, e.feeRef = def, map[string]*big.Int{}
 	for i, n := 0, e.r.Intn(6); i < n; i++ {
 		ds := e.r.Perm(len(e.denoms))
 		f := e.randFee()
@@ -1823,10 +1847,15 @@ func runRouter(t *testing.T, seed int64, n int, dir string) {
 				switch r.Intn(3) {
 				case 0:
 					ds := r.Perm(len(e.denoms))
-					e.setPairFee(e.denoms[ds[0]], e.denoms[ds[1]], e.randFee())
+					f := e.randFee()
+					if r.Intn(3) == 0 && e.defFee != nil {
+						f = new(big.Int).Set(e.defFee) // back to the default: the custom entry must go
+					}
+					e.setPairFee(e.denoms[ds[0]], e.denoms[ds[1]], f)
 				case 1:
 					def := e.randFee()
 					h.App.PoolManagerKeeper.SetParam(h.Ctx, pmtypes.KeyDefaultTakerFee, sd(def))
+					e.defFee = def
 					o.Emit(fmt.Sprintf("router setdefault %s", def), "ok", true)
 					o.Count("cfg.setdefault")
 				default:
